@@ -205,6 +205,9 @@ class SimpleTypeChecker(walkers.DagWalker):
                                  % str(formula))
         elif args[0].is_bv_type():
             return self.walk_bv_to_bool(formula, args)
+        elif args[0].is_function_type():
+            # A function symbol is not a term
+            return None
         return self.walk_type_to_type(formula, args, args[0], BOOL)
 
     @walkers.handles(op.LE, op.LT)
@@ -217,6 +220,9 @@ class SimpleTypeChecker(walkers.DagWalker):
     def walk_ite(self, formula: FNode, args: List[PySMTType], **kwargs) -> Any:
         assert formula is not None
         if None in args: return None
+        if args[1].is_function_type():
+            # A function symbol is not a term
+            return None
         if (args[0] == BOOL and args[1]==args[2]):
             return args[1]
         return None
